@@ -2,12 +2,16 @@
 //   stat S:<mean|var|stddev> S:<kd> A:<arr> <axis: N | I:k | L:..> I:<ddof>
 //   vnorm S:<kd> A:<arr> <axis> I:<ord>          (view::vector_norm)
 //   trace A:<arr>                                (view::trace, default offset/axes, integer data)
+//   dt S:<sum|prod> S:<f64|i32> S:<kd> A:<arr> <axis> <init>   (explicit result dtype on int64 data)
 // kd: def | rt0 | rt1 | ct0 | ct1.  Results are printed with %.17g and compared with relative tolerance 1e-9.
 #include "nmtools/array/view/mean.hpp"
 #include "nmtools/array/view/var.hpp"
 #include "nmtools/array/view/stddev.hpp"
 #include "nmtools/array/view/vector_norm.hpp"
 #include "nmtools/array/view/trace.hpp"
+#include "nmtools/array/view/sum.hpp"
+#include "nmtools/array/view/prod.hpp"
+#include <optional>
 #include "show.hpp"
 
 namespace view = nmtools::view;
@@ -64,6 +68,28 @@ static std::string handle(const Case& c) {
         if (fn == "mean") return stat_axis(ax, kd, [&](const auto& axis, auto... k) { return view::mean(a, axis, None, k...); });
         if (fn == "var") return stat_axis(ax, kd, [&](const auto& axis, auto... k) { return view::var(a, axis, None, ddof, k...); });
         if (fn == "stddev") return stat_axis(ax, kd, [&](const auto& axis, auto... k) { return view::stddev(a, axis, None, ddof, k...); });
+        return "unsupported";
+    }
+    if (c.op == "dt") {
+        // dt S:<sum|prod> S:<f64|i32> S:<kd> A:<arr> <axis> <init> — an explicitly requested result dtype on int64 data
+        // (values small: the cast changes the element type, not the value); result type printed too
+        const std::string fn = c.args[0].raw.substr(2), dt = c.args[1].raw.substr(2), kd = c.args[2].raw.substr(2);
+        auto a = make_array(c.args[3]); const Arg& ax = c.args[4]; const Arg& init = c.args[5];
+        auto go = [&](auto dtype, auto ini) -> std::string {
+            auto f = [&](const auto& axis, auto... k) {
+                if constexpr (sizeof...(k) == 0) { if (fn == "sum") return showf(view::sum(a, axis, dtype, ini)); else return showf(view::prod(a, axis, dtype, ini)); }
+                else { if (fn == "sum") return showf(view::sum(a, axis, dtype, ini, k...)); else return showf(view::prod(a, axis, dtype, ini, k...)); }
+            };
+            auto wrap = [&](const auto& axis, auto... k) { return std::optional<std::string>(f(axis, k...)); };
+            (void)wrap;
+            if (ax.kind == 'N') { if (kd == "def") return f(None); if (kd == "rt0") return f(None, false); if (kd == "rt1") return f(None, true); if (kd == "ct0") return f(None, False); return f(None, True); }
+            if (ax.kind == 'I') { int x = (int)ax.val; if (kd == "def") return f(x); if (kd == "rt0") return f(x, false); if (kd == "rt1") return f(x, true); if (kd == "ct0") return f(x, False); return f(x, True); }
+            auto v = vec_of<int>(ax.list);
+            if (kd == "def") return f(v); if (kd == "rt0") return f(v, false); if (kd == "rt1") return f(v, true); if (kd == "ct0") return f(v, False); return f(v, True);
+        };
+        auto with_init = [&](auto dtype) -> std::string { if (init.kind == 'N') return go(dtype, None); return go(dtype, (ll)init.val); };
+        if (dt == "f64") return with_init(nm::float64);
+        if (dt == "i32") return with_init(nm::int32);
         return "unsupported";
     }
     if (c.op == "vnorm") {
